@@ -453,6 +453,19 @@ func runC08(r *ev.Run) {
 					ref.idx.Remove(id)
 					removals++
 					r.Count("ops:remove-succeeded", 1)
+					if rng.IntN(3) == 0 {
+						// the removed id comes back with new content (an update): an acknowledged write like any other
+						d := genStoreDoc(rng, p, id, "u")
+						if err := s.AddWithID(d.ID, cloneF32(d.Vec), d.Text, d.Meta); err != nil {
+							rep("store.add-error", fmt.Sprintf("re-adding removed id %d failed: %v", id, err))
+							break
+						}
+						log = append(log, fmt.Sprintf("re-add %d", id))
+						delete(m.removed, id)
+						m.live[id], m.ever[id], m.inMem[id] = d, true, true
+						ref.idx.AddWithID(d.ID, cloneF32(d.Vec), d.Text, d.Meta)
+						r.Count("ops:re-add-removed-id", 1)
+					}
 				} else {
 					r.Count("ops:remove-refused(not in writable memtable)", 1)
 				}
